@@ -45,7 +45,17 @@ CLAIMED["C10"] = ("Deductive proof of the implicit safety obligations (no panic)
   "Partial: 'writing succeeds without error' and the re-read equalities go through text/template and the interpreter and are not expressible (see evidence.not_covered); names made of non-regular characters are outside the proved domain. Trusted: govc, go/ssa, solvers, text/template.", T, "DESIGN.md §3 C10")
 CLAIMED["C13"] = ("Deductive proof with ghost state: (readers) the scanner's first read error is sticky and every short read surfaces as a non-nil error through refill, readByteRaw, readByte, PeekN; (writers) ghost flag wfault ('some write to an underlying io.Writer failed'): every writer function - hex, eexec, counting writers, Font.Write in all formats, Font.WritePDF, afm Metrics.Write - returns a non-nil error whenever a write failed during the call.",
   "Partial: truncation-never-yields-partial-result and the upper reader layers (ScanToken, Execute, type1.Read, afm.Read) are not yet under this contract (see evidence.not_covered). Trusted: io.Writer/io.Reader interface contracts, fmt.Fprintf and text/template report write errors.", T, "DESIGN.md §3 C13")
-NA = {}
+
+CLAIMED["C12"] = ("Deductive proof of the scanner's buffer-refill contract, which is what makes the token layer independent of the delivery schedule: refill is only ever called with an empty buffer (precondition checked at every call site, so no unread byte is dropped or reordered), a read that returns data together with an error delivers the data first (result nil iff bytes arrived), the error is kept for the next call, and 0 <= pos <= used <= len(buf) holds for every number of bytes the underlying reader chooses to return (the io.Reader contract leaves n arbitrary in 0..len(p): every delivery schedule is a resolution of that choice). The pfb reader's schedule independence is the io.ReadFull contract used in C14.",
+  "Partial: a ghost input tape relating Next/Peek results to stream offsets, the split-Execute equivalence and the seekable/non-seekable branch of type1.Read are not under contract (see evidence.not_covered). Trusted: io.Reader interface contract, govc, go/ssa, solvers.", T, "DESIGN.md §3 C12")
+CLAIMED["C18"] = ("Deductive proof of the isolation half: every composite object reachable from a new interpreter (system, user, error, internal, font, CMap and resource dictionaries, the dictionary stack, the StandardEncoding array, the ProcSet dictionary and its CIDInit procedure set) is allocated during NewInterpreter/makeSystemDict (fresh(x): its reference is newer than the allocation counter at entry), hence shared with no earlier instance and with no package-level variable; package-level tables are only read.",
+  "Partial: the data-race half (all interleavings) is outside a sequential verifier; the lock discipline of the lazily built name tables is not under contract (see evidence.not_covered). Trusted: maps.Clone returns a fresh map; govc, go/ssa, solvers.", T, "DESIGN.md §3 C18")
+CLAIMED["C19"] = ("Deductive proof of the derived-metrics contracts: NumGlyphs counts the glyph map plus .notdef when missing (Type 1 and AFM); GlyphList has that length; the Type 1 bounding box is empty exactly when no glyph has a point, and otherwise contains every control point of every glyph (loop invariants over all glyphs and commands) and touches a point on each side; GlyphWidthPDF returns the stored width scaled by 1000*FontMatrix[0] (Type 1) or the AFM width, 0 for unknown names.",
+  "Partial: GlyphList order (.notdef first, encoding order, then alphabetical) and BuiltinEncoding are not under functional contract; float arithmetic is treated as real arithmetic (see evidence.not_covered). Trusted: sort.Slice, govc, go/ssa, solvers.", T, "DESIGN.md §3 C19")
+NA = {
+ "C09": "whole-pipeline equality (write through text/template and fmt, read back through the tokenizer, ~60 operators and the charstring decoder) cannot be stated as a contract over one call: no contract within reach carries a Font value through text/template output and back through the interpreter. The component contracts it rests on are proved under C05, C06, C08, C10, C20 (DESIGN.md §4).",
+ "C15": "AFM write/read cycle equality runs through fmt.Fprintf, bufio.Scanner, strings.Fields and strconv in both directions; these stdlib functions are opaque to the verifier (no string theory), so no contract can express that the text written is the text parsed (DESIGN.md §4). The no-panic and error-propagation parts of the AFM reader/writer are proved under C01, C10, C13.",
+}
 ALL = ["C%02d" % i for i in range(1, 21)]
 for p in ALL:
     if p not in CLAIMED and p not in NA:
